@@ -466,3 +466,162 @@ Qed.
 Theorem decode_to_vec_is_infra input :
   match decode_to_vec input with inl v => Some v | inr _ => None end = forgiving_base64_decode input.
 Proof. rewrite decode_to_vec_tidy, infra_unfold, infra_tidy. reflexivity. Qed.
+
+(* ---- round trip with RFC 4648 encoding ---- *)
+Lemma list_ind3 (P : list N -> Prop) :
+  P [] -> (forall a, P [a]) -> (forall a b, P [a; b]) ->
+  (forall a b c r, P r -> P (a :: b :: c :: r)) -> forall l, P l.
+Proof.
+  intros H0 H1 H2 H3. fix IH 1. intros [|a [|b [|c r]]].
+  - exact H0.
+  - apply H1.
+  - apply H2.
+  - apply H3. apply IH.
+Qed.
+
+(* the 6-bit groups of a byte string, and the padding RFC 4648 appends *)
+Fixpoint sext_of (x : list N) : list N :=
+  match x with
+  | [] => []
+  | [a] => [a / 4; (a mod 4) * 16]
+  | [a; b] => [a / 4; (a mod 4) * 16 + b / 16; (b mod 16) * 4]
+  | a :: b :: c :: r => a / 4 :: (a mod 4) * 16 + b / 16 :: (b mod 16) * 4 + c / 64 :: c mod 64 :: sext_of r
+  end.
+
+Fixpoint padding_of (pad : bool) (x : list N) : list N :=
+  match x with
+  | [] => []
+  | [a] => if pad then [61; 61] else []
+  | [a; b] => if pad then [61] else []
+  | _ :: _ :: _ :: r => padding_of pad r
+  end.
+
+Lemma std_encode_shape pad x : std_encode pad x = map b64_char (sext_of x) ++ padding_of pad x.
+Proof.
+  induction x as [| a | a b | a b c r IH] using list_ind3; try reflexivity.
+  cbn [std_encode sext_of padding_of map app]. rewrite IH. reflexivity.
+Qed.
+
+Lemma sext_of_lt64 x : bytes x -> Forall (fun v => v < 64) (sext_of x).
+Proof.
+  induction x as [| a | a b | a b c r IH] using list_ind3; intros Hb; cbn [sext_of].
+  - constructor.
+  - inversion Hb; subst. unfold is_byte in *. repeat constructor; lia.
+  - inversion Hb as [|? ? Ha Hb']; subst. inversion Hb'; subst. unfold is_byte in *. repeat constructor; lia.
+  - inversion Hb as [|? ? Ha Hb1]; subst. inversion Hb1 as [|? ? Hbb Hb2]; subst.
+    inversion Hb2 as [|? ? Hc Hb3]; subst. unfold is_byte in *.
+    repeat (constructor; [lia|]). exact (IH Hb3).
+Qed.
+
+Lemma sextets_map_char vs : Forall (fun v => v < 64) vs -> sextets (map b64_char vs) = Some vs.
+Proof.
+  induction vs as [|v r IH]; intros H; [reflexivity|].
+  inversion H; subst. cbn [map sextets]. rewrite alphabet_index_of_char by assumption.
+  rewrite IH by assumption. reflexivity.
+Qed.
+
+Lemma padding_of_cases pad x :
+  padding_of pad x = [] \/ padding_of pad x = [61] \/ padding_of pad x = [61; 61].
+Proof.
+  induction x as [| a | a b | a b c r IH] using list_ind3; cbn [padding_of]; try destruct pad; tauto.
+Qed.
+
+Lemma shape_of_encoding pad x :
+  shape_ok (N.of_nat (length (sext_of x)) mod 4) (N.of_nat (length (padding_of pad x))) = true.
+Proof.
+  induction x as [| a | a b | a b c r IH] using list_ind3; cbn [sext_of padding_of].
+  - reflexivity.
+  - destruct pad; reflexivity.
+  - destruct pad; reflexivity.
+  - cbn [length]. revert IH. generalize (length (sext_of r)) as n. generalize (N.of_nat (length (padding_of pad r))) as q.
+    intros q n IH. replace (N.of_nat (S (S (S (S n)))) mod 4) with (N.of_nat n mod 4) by lia. exact IH.
+Qed.
+
+Lemma accumulate4 out a b c d r :
+  accumulate out 0 0 (a :: b :: c :: d :: r) =
+  accumulate (out ++ [(((a * 64 + b) * 64 + c) * 64 + d) / 65536;
+                      ((((a * 64 + b) * 64 + c) * 64 + d) / 256) mod 256;
+                      (((a * 64 + b) * 64 + c) * 64 + d) mod 256]) 0 0 r.
+Proof.
+  rewrite !accumulate_cons.
+  change (0 + 6 =? 24) with false. change (0 + 6 + 6 =? 24) with false.
+  change (0 + 6 + 6 + 6 =? 24) with false. change (0 + 6 + 6 + 6 + 6 =? 24) with true.
+  cbv iota. change (0 * 64) with 0. rewrite N.add_0_l. reflexivity.
+Qed.
+
+Lemma group3 a b c :
+  a < 256 -> b < 256 -> c < 256 ->
+  (((a / 4 * 64 + ((a mod 4) * 16 + b / 16)) * 64 + ((b mod 16) * 4 + c / 64)) * 64 + c mod 64) = a * 65536 + b * 256 + c.
+Proof. intros Ha Hb Hc. lia. Qed.
+
+Lemma flush_accumulate_sext x : forall out,
+  bytes x -> flush_buffer (accumulate out 0 0 (sext_of x)) = out ++ x.
+Proof.
+  induction x as [| a | a b | a b c r IH] using list_ind3; intros out Hb.
+  - cbn [sext_of accumulate flush_buffer]. change (0 =? 12) with false. change (0 =? 18) with false.
+    cbv iota. rewrite app_nil_r. reflexivity.
+  - inversion Hb as [|? ? Ha _]; subst. unfold is_byte in Ha.
+    cbn [sext_of]. rewrite !accumulate_cons.
+    change (0 + 6 =? 24) with false. change (0 + 6 + 6 =? 24) with false. cbv iota.
+    cbn [accumulate flush_buffer]. change (0 + 6 + 6 =? 12) with true. cbv iota.
+    f_equal. f_equal. lia.
+  - inversion Hb as [|? ? Ha Hb1]; subst. inversion Hb1 as [|? ? Hbb _]; subst. unfold is_byte in *.
+    cbn [sext_of]. rewrite !accumulate_cons.
+    change (0 + 6 =? 24) with false. change (0 + 6 + 6 =? 24) with false.
+    change (0 + 6 + 6 + 6 =? 24) with false. cbv iota.
+    cbn [accumulate flush_buffer]. change (0 + 6 + 6 + 6 =? 12) with false.
+    change (0 + 6 + 6 + 6 =? 18) with true. cbv iota.
+    f_equal. f_equal; [|f_equal]; lia.
+  - inversion Hb as [|? ? Ha Hb1]; subst. inversion Hb1 as [|? ? Hbb Hb2]; subst.
+    inversion Hb2 as [|? ? Hc Hb3]; subst. unfold is_byte in *.
+    cbn [sext_of]. rewrite accumulate4, (group3 a b c Ha Hbb Hc), (IH _ Hb3).
+    rewrite <- app_assoc. f_equal. cbn [app]. f_equal; [|f_equal; [|f_equal]]; lia.
+Qed.
+
+Theorem tidy_std_encode pad x : bytes x -> tidy (std_encode pad x) = Some x.
+Proof.
+  intros Hb. unfold tidy. rewrite std_encode_shape.
+  destruct (head_not_alpha_pad _ (padding_of_cases pad x)) as [Hh Ha].
+  rewrite (span_alpha_app _ _ _ (sextets_map_char _ (sext_of_lt64 x Hb)) Hh).
+  rewrite Ha, shape_of_encoding. cbn [andb].
+  rewrite (flush_accumulate_sext x [] Hb). reflexivity.
+Qed.
+
+Theorem decode_std_encode pad x s :
+  bytes x -> strip_whitespace s = std_encode pad x -> decode_to_vec s = inl x.
+Proof.
+  intros Hb Hs. pose proof (decode_to_vec_tidy s) as H. rewrite Hs, (tidy_std_encode pad x Hb) in H.
+  destruct (decode_to_vec s) as [v|e]; [inversion H; reflexivity | discriminate].
+Qed.
+
+(* "with whitespace inserted anywhere", as a relation: s is e with ASCII whitespace inserted *)
+Inductive ws_inserted : list N -> list N -> Prop :=
+| wsi_nil : ws_inserted [] []
+| wsi_ws c e s : is_ascii_whitespace c = true -> ws_inserted e s -> ws_inserted e (c :: s)
+| wsi_keep c e s : ws_inserted e s -> ws_inserted (c :: e) (c :: s).
+
+Lemma ws_inserted_strip e s : ws_inserted e s -> no_ws e -> strip_whitespace s = e.
+Proof.
+  induction 1 as [|c e s Hc _ IH|c e s _ IH]; intros He.
+  - reflexivity.
+  - unfold strip_whitespace in *. cbn [filter]. rewrite Hc. cbn [negb]. exact (IH He).
+  - unfold no_ws in He. cbn [forallb] in He. apply andb_true_iff in He. destruct He as [Hc He].
+    unfold strip_whitespace in *. cbn [filter]. rewrite Hc. f_equal. exact (IH He).
+Qed.
+
+Lemma std_encode_no_ws pad x : bytes x -> no_ws (std_encode pad x).
+Proof.
+  intros Hb. rewrite std_encode_shape. unfold no_ws. rewrite forallb_app. apply andb_true_iff. split.
+  - apply forallb_forall. intros c Hc. apply in_map_iff in Hc. destruct Hc as [v [Hv Hin]].
+    pose proof (sext_of_lt64 x Hb) as HF. rewrite Forall_forall in HF. specialize (HF v Hin).
+    destruct (is_ascii_whitespace c) eqn:Hw; [|reflexivity].
+    apply ws_not_alphabet in Hw. rewrite <- Hv, alphabet_index_of_char in Hw by exact HF. discriminate.
+  - destruct (padding_of_cases pad x) as [->|[->| ->]]; reflexivity.
+Qed.
+
+Theorem decode_ws_inserted pad x s :
+  bytes x -> ws_inserted (std_encode pad x) s -> decode_to_vec s = inl x.
+Proof.
+  intros Hb Hi. apply (decode_std_encode pad x s Hb).
+  exact (ws_inserted_strip _ _ Hi (std_encode_no_ws pad x Hb)).
+Qed.
